@@ -47,3 +47,25 @@ def returns_fresh(kind='int', lo=None, hi=None, label='ret'):
 
 def noop(it, args, kwargs, fr, node):
     return None
+
+
+def flags_obj(name='flags'):
+    """a str-keyed table of booleans / counters whose content is irrelevant: reads give fresh values, writes are no-ops"""
+
+    def build(it, pname):
+        import z3
+
+        memo = {}
+
+        def getitem(it2, o, k):
+            key = repr(k) if isinstance(k, str) else None
+            if key is not None and key in memo:
+                return memo[key]
+            v = it2.ctx.fresh(f'{pname}[{k if isinstance(k, str) else "?"}]', z3.BoolSort() if name == 'flags' else z3.IntSort())
+            if key is not None:
+                memo[key] = v
+            return v
+
+        return VObj(None, {'getitem!': getitem, 'setitem!': lambda it2, o, k, v: None}, pname)
+
+    return custom(build)
